@@ -20,7 +20,7 @@ for p in props:
         "Lean 4 theorems about a hand-written executable model of the code (listed with their axioms in the evidence), "
         "tied to /repo on every run by (i) a differential correspondence run of the real code (dev / release / sanitizer builds, "
         "CPU masks where threads matter) against the compiled model, with a proved spec-level oracle evaluated on the implementation's "
-        "output, (ii) source pins on every modelled function body, and (iii) for C01-C19 models regenerated from the "
+        "output, (ii) source pins on every modelled function body, and (iii) for all 20 properties models regenerated from the "
         "Rust source by translators and re-proved equal to the hand-written models. A broken proof / tie triggers a search for a failing input (stress tier)."
         + ((" PARTIAL — " if cfg.get("partial") else " Scope notes — ") + "; ".join(opens) if opens else ""))
     checks.append({
